@@ -59,11 +59,13 @@ def gen_cases(tier, seed):
         loss, par = losses[i % len(losses)]
         yield C(w="solve", shape=shape, loss=loss, par=par, solver=["SGD", "Adam", "Adagrad"][i % 3], sparse=bool((i // 3) % 2),
                 rate=float(rng.choice([1e-3, 1e-2, 0.3, 3.0])), max_fails=int(rng.integers(0, 3)), epoch_iters=int(rng.integers(1, 6)),
-                max_iters=int(rng.integers(1, 7)), R=int(rng.integers(1, 3)), via_gcp_opt=bool(i % 4 == 0))
+                max_iters=int(rng.integers(1, 7)), R=int(rng.integers(1, 3)), via_gcp_opt=bool(i % 4 == 0),
+                f_est_tol=[None, None, "above-start", "below-start"][int(rng.integers(0, 4))])
     for i in range(10 if tier == "quick" else 100):
         shape = [int(s) for s in rng.integers(2, 5, size=int(rng.integers(2, 4)))]
         loss, par = losses[i % 4]
-        yield C(w="lbfgsb", shape=shape, loss=loss, par=par, R=int(rng.integers(1, 3)), maxiter=int(rng.integers(1, 8)), masked=bool(i % 3 == 0))
+        yield C(w="lbfgsb", shape=shape, loss=loss, par=par, R=int(rng.integers(1, 3)), maxiter=int(rng.integers(1, 8)), masked=bool(i % 3 == 0),
+                maxls=[None, None, 1, 2, 3][int(rng.integers(0, 5))], via_gcp_opt=bool(i % 2))
     for i in range(24 if tier == "quick" else 240):
         yield C(w="reuse", solver=["SGD", "Adam", "Adagrad", "LBFGSB"][i % 4], loss=["GAUSSIAN", "POISSON"][(i // 4) % 2],
                 shapes=[[int(s) for s in rng.integers(2, 5, size=int(rng.integers(2, 4)))] for _ in range(3)], same_size=bool(i % 2),
@@ -230,7 +232,13 @@ def _w_solve(case, ctx, rng):
         X = ttb.tensor(Xd.copy())
     fh, gh, lb = fg_setup(getattr(Objectives, loss), None, case["par"])
     M0 = ttb.ktensor([rng.uniform(0.2, 1.0, size=(s, R)) for s in shape])
-    solver = _mk_solver(case["solver"], rate=case["rate"], max_fails=case["max_fails"], epoch_iters=case["epoch_iters"], max_iters=case["max_iters"])
+    kwtol = {}
+    if case.get("f_est_tol") is not None:
+        # a loose (non-default) tolerance relative to the exact objective of the start: above it (the run may stop at once) or below it
+        f_start = float(evaluate(M0, X, None, fh, None))
+        kwtol["f_est_tol"] = f_start * (3.0 if f_start > 0 else 0.3) + 1.0 if case["f_est_tol"] == "above-start" else f_start * (0.5 if f_start > 0 else 2.0) - 1.0
+    solver = _mk_solver(case["solver"], rate=case["rate"], max_fails=case["max_fails"], epoch_iters=case["epoch_iters"], max_iters=case["max_iters"], **kwtol)
+    ctx.feat(f_est_tol=case.get("f_est_tol"))
     ctx.feat(solver=case["solver"], loss=loss, sparse=sparse, finite_lb=bool(np.isfinite(lb)), via_gcp_opt=case["via_gcp_opt"])
     m0dig = state_digest(M0)
     xdig = state_digest(X)
@@ -294,8 +302,9 @@ def _w_lbfgsb(case, ctx, rng):
     fh, gh, lb = fg_setup(getattr(Objectives, loss), None, case["par"])
     M0 = ttb.ktensor([rng.uniform(0.2, 1.0, size=(s, R)) for s in shape])
     mask = (rng.random(shape) < 0.8).astype(float) if case["masked"] else None
-    solver = OPT.LBFGSB(maxiter=case["maxiter"])
-    ctx.feat(loss=loss, masked=case["masked"])
+    kwls = {} if case.get("maxls") is None else {"maxls": case["maxls"]}
+    solver = OPT.LBFGSB(maxiter=case["maxiter"], **kwls)
+    ctx.feat(loss=loss, masked=case["masked"], maxls=case.get("maxls"))
     m0dig = state_digest(M0)
     r = ctx.call("LBFGSB.solve", solver.solve, M0, X, fh, gh, lb, mask)
     if not r.ok:
@@ -305,7 +314,7 @@ def _w_lbfgsb(case, ctx, rng):
     f0 = evaluate(M0, X, mask, fh, None)
     f1 = evaluate(M, X, mask, fh, None)
     ctx.check(f1 <= f0 + 1e-10 * max(1.0, abs(f0)), "LBFGSB.solve", "WORSE-THAN-START", f"objective of the result {f1!r} > start {f0!r}")
-    ctx.check(abs(f1 - info["final_f"]) <= 1e-9 * max(1.0, abs(f1)), "LBFGSB.solve", "WRONG-OBJECTIVE", f"reported final_f {info['final_f']!r} vs recomputed {f1!r}")
+    # (scipy's final_f after an abandoned line search is the value at the rejected trial point: not an oracle for the returned model)
     ctx.check(all(bool((f >= lb - 1e-12).all()) for f in M.factor_matrices), "LBFGSB.solve", "BOUND", "factor entry below the lower bound")
     ctx.check(state_digest(M0) == m0dig, "LBFGSB.solve", "MUTATED", "initial model changed", who="guess")
 
